@@ -42,7 +42,7 @@ CHECKS = {
    note="bounded domain (3 ids, a in {NULL,1,2}, b in {NULL,0,1,5}); quick replays a stratified seeded sample of the explored transitions plus random walks, thorough replays depth-4 transitions; renderer/normaliser in lib/relational.py trusted; open findings listed in known_findings.json by spec-defined signature"),
  "C09": dict(cat="model_checking", ref="DESIGN.md 3.9, 6 (C09)",
    tech="TLA+ reference spec Relational.tla explored by TLC (per-transition emission, VIEW hides history; -simulate random walks); every behaviour rendered to SQL and replayed on TurDB, results and full observation compared with the model",
-   text="TurDB must accept a write iff Relational.tla's TableOk (PRIMARY KEY, UNIQUE with distinct NULLs, NOT NULL, CHECK) holds for the resulting table, for every explored transition, both directions (accepts_invalid / rejects_valid) reported, including INSERT .. ON CONFLICT DO NOTHING / DO UPDATE whose updated image keeps or breaks each constraint (USpec); after every sampled behaviour the constraint state itself is probed: the table must accept exactly the single-row INSERTs the model accepts (Accepts in MC_Relational.tla), so a unique / primary-key entry lost or left behind by an earlier statement shows at once",
+   text="TurDB must accept a write iff Relational.tla's TableOk (PRIMARY KEY, UNIQUE with distinct NULLs, NOT NULL, CHECK) holds for the resulting table, for every explored transition, both directions (accepts_invalid / rejects_valid) reported, including INSERT .. ON CONFLICT DO NOTHING / DO UPDATE whose updated image keeps or breaks each constraint (USpec); FOREIGN KEY is decided with ForeignKey.tla (parent / child tables, ON DELETE noaction | restrict | cascade, key updates, two-row statements, ROLLBACK, reopen; no dangling reference in what TurDB shows) and CHECK with CheckExpr.tla (912 expressions incl. every AND / OR / NOT shape written with minimal parentheses, NULL passes, through INSERT and UPDATE); after every sampled behaviour the constraint state itself is probed: the table must accept exactly the single-row INSERTs the model accepts (Accepts in MC_Relational.tla), so a unique / primary-key entry lost or left behind by an earlier statement shows at once",
    note="bounded domain (3 ids, a in {NULL,1,2}, b in {NULL,0,1,5}); quick replays a stratified seeded sample of the explored transitions plus random walks, thorough replays depth-4 transitions; renderer/normaliser in lib/relational.py trusted; open findings listed in known_findings.json by spec-defined signature"),
  "C10": dict(cat="model_checking", ref="DESIGN.md 3.9, 6 (C10)",
    tech="TLA+ reference spec Relational.tla explored by TLC (per-transition emission, VIEW hides history; -simulate random walks); every behaviour rendered to SQL and replayed on TurDB, results and full observation compared with the model",
